@@ -120,7 +120,7 @@ def add_foreign_metadata(rng, t):
 
 
 def run(ctx):
-    built = ctx.build(extra_targets=["theories/Model/RuleRun.v"])
+    built = ctx.build(extra_targets=["theories/Model/RuleRun.v", "theories/Properties/Valid.v"])
     rng = ctx.rng
     thorough = ctx.tier == "thorough"
     big = VT.eml_tree()
